@@ -108,6 +108,8 @@ type Sched struct {
 	pctChange   map[uint64]bool
 	rr          int
 	dying       bool
+	onceOwner   *Task
+	onceDepth   int
 	epoch       uint64 // incremented whenever a task is released to run
 	progress    uint64 // incremented whenever a task hands back after really running, or simulated time jumps
 	LockWaits   int
@@ -205,6 +207,38 @@ func (t *Task) BlockUntil(cond func() bool, wake func() uint64) {
 	t.handoff(schedMsg{kind: mBlock, cond: cond, wakeFn: wake, site: -2})
 }
 
+// onceEnter / onceExit bracket `X.Do(f)` statements of the library (sync.Once): a task that arrives
+// while another task is inside a Do section waits cooperatively, like a lock waiter.
+//
+//go:norace
+func (s *Sched) onceEnter() {
+	if s.dying {
+		return
+	}
+	t := s.cur
+	if t == nil {
+		return
+	}
+	for s.onceOwner != nil && s.onceOwner != t {
+		t.handoff(schedMsg{kind: mLockWait, site: t.lastSite})
+		if s.dying {
+			return
+		}
+	}
+	s.onceOwner = t
+	s.onceDepth++
+}
+
+//go:norace
+func (s *Sched) onceExit() {
+	if s.onceOwner == s.cur && s.onceDepth > 0 {
+		s.onceDepth--
+		if s.onceDepth == 0 {
+			s.onceOwner = nil
+		}
+	}
+}
+
 // Yield is an explicit scheduling point in harness code.
 //
 //go:norace
@@ -296,7 +330,8 @@ func (s *Sched) pick(r []*Task) *Task {
 func (s *Sched) Run() {
 	hessian.VfStep = s.stepHook
 	hessian.VfBlocked = s.lockBlocked
-	defer func() { hessian.VfStep = nil; hessian.VfBlocked = nil }()
+	hessian.VfOnceEnter, hessian.VfOnceExit = s.onceEnter, s.onceExit
+	defer func() { hessian.VfStep = nil; hessian.VfBlocked = nil; hessian.VfOnceEnter, hessian.VfOnceExit = nil, nil }()
 	if s.Policy == polPCT {
 		for _, t := range s.tasks {
 			t.prio = 1000 + s.ch.Intn(1000, "prio")
